@@ -7,7 +7,7 @@ from p_histfile import enc, dec
 import p_seg
 
 SMALL = [0x61, 0x5f, 0x20, 0x2c, 0x0a, 0xe9, 0x301, 0x65e5]
-BIG = SMALL + [0x62, 0x41, 0x39, 0x09, 0x3000, 0x1f600, 0x200d, 0x1f1e6, 0x1f1e7, 0xdf, 0x1c6, 0x2e, 0x28]
+BIG = SMALL + [0x62, 0x41, 0x39, 0x09, 0x3000, 0x1f600, 0x200d, 0x1f1e6, 0x1f1e7, 0xdf, 0x1c6, 0x2e, 0x28, 0xfb01, 0x130, 0x149]
 COUNTS = [0, 1, 1, 1, 2, 2, 3, 4, 65535]
 WORDS = "bev"
 ATS = "sba"
